@@ -18,3 +18,27 @@ def register(w):
         c.ens(f"len({AE}) == len(old({AE})) + 1", label="exactly-one-timer-armed")
         c.ens(f"forall[str](lambda k: implies(k in {AE} and not (k in old({AE})), k.startswith(owner_id + '::') and not {AE}[k].is_set))",
               label="new-timer-owned-by-the-state-and-not-cancelled")
+
+    OWNED = "(k == state.id or k.startswith(state.id + '::'))"
+
+    @w.contract(SI + "_cancel_state_tasks", props=["C08"])
+    def _(c):
+        c.param("state", Node)
+        c.mod(AE, "self._after_threads", "Flag.is_set")
+        c.req("state != None")
+        c.no_runtime = True
+        c.ens(f"forall[str](lambda k: (k in {AE}) == (k in old({AE}) and not {OWNED}))", label="every-timer-of-the-state-is-removed-and-no-other")
+        c.ens(f"forall[str](lambda k: implies(k in {AE}, {AE}[k] == old({AE})[k]))", label="remaining-timers-keep-their-flag")
+        c.ens(f"forall[str](lambda k: implies(k in old({AE}) and {OWNED}, old({AE})[k].is_set))", label="every-removed-timer-is-cancelled")
+        c.ens(f"forall[Flag](lambda f: implies(old(f.is_set), f.is_set))", label="no-flag-is-cleared")
+        c.ens(f"forall[Flag](lambda f: implies(f.is_set and not old(f.is_set), exists[str](lambda k: k in old({AE}) and {OWNED} and old({AE})[k] == f)))",
+              label="only-flags-of-this-state's-timers-are-set")
+        c.loop(0, inv=[
+            "forall[int, int](lambda a, b: implies(0 <= a and a < b and b < len(to_cancel), to_cancel[a] != to_cancel[b]))",
+            f"forall[int](lambda j: implies(0 <= j and j < len(to_cancel), to_cancel[j] in old({AE})))",
+            f"forall[str](lambda k: (k in {AE}) == (k in old({AE}) and not exists[int](lambda j: 0 <= j and j < _i and to_cancel[j] == k)))",
+            f"forall[str](lambda k: implies(k in {AE}, {AE}[k] == old({AE})[k]))",
+            f"forall[int](lambda j: implies(0 <= j and j < _i, old({AE})[to_cancel[j]].is_set))",
+            "forall[Flag](lambda f: implies(old(f.is_set), f.is_set))",
+            f"forall[Flag](lambda f: implies(f.is_set and not old(f.is_set), exists[int](lambda j: 0 <= j and j < _i and old({AE})[to_cancel[j]] == f)))",
+        ])
